@@ -58,6 +58,8 @@ MODULES = ["Spydr.Verilog.Model", "Spydr.Verilog.ModelElab", "Spydr.Verilog.Mode
            "Spydr.Verilog.RoundTripLeafD", "Spydr.Verilog.RoundTripLeafE", "Spydr.Verilog.RoundTripLeafF",
            "Spydr.Verilog.RoundTripLeafG", "Spydr.Verilog.RoundTripLeafH", "Spydr.Verilog.RoundTripLeafI",
            "Spydr.Verilog.RoundTripLeafJ", "Spydr.Verilog.FragmentReport",
+           "Spydr.Verilog.RoundTripHierA", "Spydr.Verilog.RoundTripHierB", "Spydr.Verilog.RoundTripHierC",
+           "Spydr.Verilog.RoundTripHierD", "Spydr.Verilog.RoundTripHierE",
            "Spydr.Verilog.WFBase", "Spydr.Verilog.WFPort", "Spydr.Verilog.WFEval", "Spydr.Verilog.WFHeader",
            "Spydr.Verilog.WFDecl", "Spydr.Verilog.WFInst", "Spydr.Verilog.WFDesign", "Spydr.Verilog.WFStruct"]
 THEOREMS = {
@@ -92,7 +94,8 @@ THEOREMS = {
             "Spydr.Verilog.Elab.chars_modP", "Spydr.Verilog.Elab.toks_modP", "Spydr.Verilog.Elab.chars_fileP", "Spydr.Verilog.Elab.lexR_of_pieces", "Spydr.Verilog.Elab.c04_text_struct", "Spydr.Verilog.Elab.exNet_struct",
             "Spydr.Verilog.Elab.declStepL_run", "Spydr.Verilog.Elab.hdrStepL_run", "Spydr.Verilog.Elab.elabModule_leaf", "Spydr.Verilog.Elab.elabDesign_bb", "Spydr.Verilog.Elab.exBB_builds", "Spydr.Verilog.Elab.foldLeaves_view", "Spydr.Verilog.Elab.buildLeaf_iface", "Spydr.Verilog.Elab.foldLeaves_iface", "Spydr.Verilog.Elab.c04_view_bb", "Spydr.Verilog.Elab.c04_ast_bb", "Spydr.Verilog.Elab.exNetBB_frag",
             "Spydr.Verilog.Elab.primBodyGo_ports", "Spydr.Verilog.Elab.moduleP_leaf", "Spydr.Verilog.Elab.topGo_leaf", "Spydr.Verilog.Elab.preprocess_keep", "Spydr.Verilog.Elab.parse_bb", "Spydr.Verilog.Elab.moduleText_leaf", "Spydr.Verilog.Elab.composeV_text_bb", "Spydr.Verilog.Elab.chars_leafP", "Spydr.Verilog.Elab.toks_leafP", "Spydr.Verilog.Elab.chars_filePbb", "Spydr.Verilog.Elab.c04_text_bb", "Spydr.Verilog.Elab.exNetBB_struct", "Spydr.Verilog.Elab.exNetBB_roundtrip",
-            "Spydr.Verilog.Elab.buildBB_low", "Spydr.Verilog.Elab.c04_full_ast", "Spydr.Verilog.Elab.c04_full_bb", "Spydr.Verilog.Elab.exNetBB_full", "Spydr.Verilog.Elab.nobb_row_shrinks", "Spydr.Verilog.Elab.exNetRB_full"],
+            "Spydr.Verilog.Elab.buildBB_low", "Spydr.Verilog.Elab.c04_full_ast", "Spydr.Verilog.Elab.c04_full_bb", "Spydr.Verilog.Elab.exNetBB_full", "Spydr.Verilog.Elab.nobb_row_shrinks", "Spydr.Verilog.Elab.exNetRB_full",
+            "Spydr.Verilog.Elab.instantiate_firstG", "Spydr.Verilog.Elab.instStep2_runG", "Spydr.Verilog.Elab.insts_foldG", "Spydr.Verilog.Elab.declStepA_run", "Spydr.Verilog.Elab.wire_foldG", "Spydr.Verilog.Elab.elabModule_lateW", "Spydr.Verilog.Elab.late_fold", "Spydr.Verilog.Elab.elabDesign_hier", "Spydr.Verilog.Elab.exHier_builds"],
 }
 
 
